@@ -40,7 +40,8 @@ def nm(n):
 
 def rname(i):
     """read names: every second one carries a GraphAligner style comment after a blank"""
-    return "r%d" % i if i % 2 == 0 else "r%d runid=7 ch=%d" % (i, i)
+    # ... and that comment holds characters that take more than one byte in the file (offsets are bytes, not characters)
+    return "r%d" % i if i % 2 == 0 else "r%d runid=7 ch=%d caf\u00e9\u4e2d" % (i, i)
 
 
 def cut_name(line):
@@ -203,7 +204,7 @@ def write_real(wd, recs, gz=False):
         lines.append("%s\t50\t0\t10\t+\t%s\t%d\t%d\t%d\t9\t10\t60%s" % (rname(i), r[0], r[1], r[2], r[3], tags))
     gaf = os.path.join(wd, "in.gaf")
     text = "".join(l + "\n" for l in lines)
-    open(gaf, "w").write(text[:-1] if (NONL[0] and not gz) else text)
+    open(gaf, "w", encoding="utf-8").write(text[:-1] if (NONL[0] and not gz) else text)
     if gz:
         pysam.tabix_compress(gaf, gaf + ".gz", force=True)
         gaf += ".gz"
@@ -214,7 +215,7 @@ def real_offsets(gaf):
     from pysam import libcbgzf
 
     gz = gaf.endswith(".gz")
-    fh = libcbgzf.BGZFile(gaf, "rb") if gz else open(gaf, "r")
+    fh = libcbgzf.BGZFile(gaf, "rb") if gz else open(gaf, "r", encoding="utf-8")
     offs = []
     while True:
         o = fh.tell()
